@@ -501,3 +501,31 @@ Proof.
   - apply chan_scalar_left.
   - intros r y. apply operand_binop_hom. exact true.
 Qed.
+
+(* ChannelList op list/tuple/ChannelList of numbers, via the dispatch of AbstractSequence:
+   length = max of the lengths, element i = op a[i mod |a|] b[i mod |b|] *)
+Lemma chan_binop_wrap_law : forall g k la lb0, la <> [] -> lb0 <> [] ->
+  exists r, apply_binop g (OSeq KChan (map ONum la)) (OSeq k (map ONum lb0)) = OSeq KChan r
+    /\ length r = Nat.max (length la) (length lb0)
+    /\ forall i, i < Nat.max (length la) (length lb0) ->
+         nth i r (ONum NErr) = ONum (snd g (nth (i mod length la) la NErr) (nth (i mod length lb0) lb0 NErr)).
+Proof.
+  intros g k la lb0 Hla Hlb. unfold apply_binop. rewrite !odepth_nums.
+  set (a := OSeq KChan (map ONum la)). set (b := OSeq k (map ONum lb0)).
+  set (sel := match fst g with
+              | SRaw => raw_apply2 g
+              | SDec => apply_binop_f 3 (demote g)
+              | SPy => apply_binop_f 3 g
+              end).
+  assert (Hstep : apply_binop_f (S (S (1 + 1))) g a b = list_binop_f oview OSeq OErr 3 sel a b KChan) by reflexivity.
+  rewrite Hstep.
+  destruct (list_binop_wrap_law_gen obj oview OSeq OErr 1 sel a b KChan KChan (map ONum la) k (map ONum lb0) (ONum NErr))
+    as [r [Hr [Hlen Hnth]]]; try reflexivity.
+  - destruct la; [congruence|discriminate].
+  - destruct lb0; [congruence|discriminate].
+  - exists r. split; [exact Hr|]. rewrite !map_length in *. split; [exact Hlen|].
+    intros i Hi. specialize (Hnth i Hi). cbv zeta in Hnth. rewrite Hnth.
+    change (ONum NErr) with (ONum (@id num NErr)). rewrite !map_nth. unfold id.
+    rewrite list_binop_scalar_leaf by reflexivity.
+    unfold sel. destruct g as [[| |] f]; reflexivity.
+Qed.
